@@ -133,6 +133,16 @@ var (
 		Cmp:   func(a, b interface{}) int { return cmpInt64(a.(int64), b.(int64)) },
 		Layer: func(k interface{}, bf uint) uint8 { return ref.IntLayer(a64(k), bf) },
 		Dec:   decInto[int64]}
+	// the narrow integer types have a numeric layer but no case of their own in
+	// DefaultKeyCompare: they are ordered by the bytes of their marshaled (decimal) form
+	KSInt32 = &ref.KeySpec{Name: "int32",
+		Cmp:   cmpMarshaled,
+		Layer: func(k interface{}, bf uint) uint8 { return ref.IntLayer(int64(k.(int32)), bf) },
+		Dec:   decInto[int32]}
+	KSUint8 = &ref.KeySpec{Name: "uint8",
+		Cmp:   cmpMarshaled,
+		Layer: func(k interface{}, bf uint) uint8 { return ref.UintLayer(uint64(k.(uint8)), bf) },
+		Dec:   decInto[uint8]}
 	KSString = &ref.KeySpec{Name: "string",
 		Cmp:   func(a, b interface{}) int { return strings.Compare(a.(string), b.(string)) },
 		Layer: func(k interface{}, bf uint) uint8 { return ref.BlobLayer([]byte(k.(string)), bf) },
@@ -159,6 +169,12 @@ var (
 )
 
 func a64(k interface{}) int64 { return k.(int64) }
+
+func cmpMarshaled(a, b interface{}) int {
+	x, _ := json.Marshal(a)
+	y, _ := json.Marshal(b)
+	return bytes.Compare(x, y)
+}
 
 // ---------- universes ----------
 
@@ -321,5 +337,29 @@ func Uint64Cfg(bf uint, keys []uint64, format, cache string) *Config {
 	c := &Config{BF: bf, Format: format, KS: KSUint64, Keys: ks, Vals: strs("a", "b"),
 		KeysLike: uint64(0), ValsLike: "", Cache: cache, Probes: []interface{}{uint64(1000003)}}
 	c.Name = fmt.Sprintf("uint64%v/bf%d/%s/%s", keys, bf, shortFmt(format), cache)
+	return c
+}
+
+// Int32Cfg: int32 keys (numeric layer, ordered by their decimal text).
+func Int32Cfg(bf uint, keys []int32, format, cache string) *Config {
+	var ks []interface{}
+	for _, k := range keys {
+		ks = append(ks, k)
+	}
+	c := &Config{BF: bf, Format: format, KS: KSInt32, Keys: sortKeys(KSInt32, ks), Vals: strs("a", "b"),
+		KeysLike: int32(0), ValsLike: "", Cache: cache, Probes: []interface{}{int32(-1000003), int32(5), int32(1000003)}}
+	c.Name = fmt.Sprintf("int32%v/bf%d/%s/%s", keys, bf, shortFmt(format), cache)
+	return c
+}
+
+// Uint8Cfg: uint8 keys (numeric layer, ordered by their decimal text).
+func Uint8Cfg(bf uint, keys []uint8, format, cache string) *Config {
+	var ks []interface{}
+	for _, k := range keys {
+		ks = append(ks, k)
+	}
+	c := &Config{BF: bf, Format: format, KS: KSUint8, Keys: sortKeys(KSUint8, ks), Vals: strs("a", "b"),
+		KeysLike: uint8(0), ValsLike: "", Cache: cache, Probes: []interface{}{uint8(3), uint8(255)}}
+	c.Name = fmt.Sprintf("uint8%v/bf%d/%s/%s", keys, bf, shortFmt(format), cache)
 	return c
 }
